@@ -34,6 +34,21 @@ pub struct C03 {
 const NFORMS: usize = 22;
 const KILO: i64 = 1000;
 const POWS: [i64; 4] = [2, 14, -14, 30];
+/// Unit powers at the ends of i32 / u32, written directly and reached in two steps. (text, exponent)
+const EDGE_FORMS: [(&str, i128); 11] = [
+    ("{u}^2147483647", 2147483647),
+    ("{u}^2147483648", 2147483648),
+    ("{u}^2147483649", 2147483649),
+    ("{u}^-2147483647", -2147483647),
+    ("{u}^-2147483648", -2147483648),
+    ("{u}^-2147483649", -2147483649),
+    ("{u}^4294967296", 4294967296),
+    ("({u}^1073741824)^2", 2147483648),
+    ("{u}^2147483647 {u}", 2147483648),
+    ("({u}^-1073741824)^2", -2147483648),
+    ("({u}^65536)^65536", 4294967296),
+];
+const EDGE_UNITS: [&str; 3] = ["m", "s", "kg"];
 
 fn rat_text(r: &Rat) -> String {
     if r.is_integer() {
@@ -154,6 +169,7 @@ impl C03 {
             vec![vals.len() as u64, src_forms.len() as u64, c, c, NFORMS as u64, c, c],
         );
         fams.add("powers of prefixed targets: 1 t^p -> (prefix t)^p", vec![c, prefixes.len() as u64, POWS.len() as u64]);
+        fams.add("unit powers at the ends of i32: 1 u^a -> u^b", vec![EDGE_UNITS.len() as u64, EDGE_FORMS.len() as u64, EDGE_FORMS.len() as u64]);
         C03 { fams, units, pairs, reps, core300, prefixes, core12, vals, src_forms, dump, ctx: Lazy::new() }
     }
 }
@@ -165,6 +181,9 @@ enum Plan {
     AnyErr { q: String },
     /// target name has several readings (competing prefixes): value must match one of them
     OneOf { q: String, wants: Vec<Rat> },
+    /// powers of a base unit: a number (1) only if the exponents agree, a conformance error only if
+    /// they differ; any other error (the exponent is too large for the evaluator) is accepted
+    Edge { q: String, same: bool },
     Skip(&'static str),
 }
 
@@ -241,6 +260,12 @@ impl C03 {
                     return Plan::Skip("no exact reading");
                 }
                 Plan::OneOf { q, wants }
+            }
+            5 => {
+                let u = EDGE_UNITS[d[0] as usize];
+                let (a, ea) = EDGE_FORMS[d[1] as usize];
+                let (b, eb) = EDGE_FORMS[d[2] as usize];
+                Plan::Edge { q: format!("1 {} -> {}", a.replace("{u}", u), b.replace("{u}", u)), same: ea == eb }
             }
             4 => {
                 // (yocto t)^14 is 1e-336 t^14: beyond f64, exact for rationals
@@ -356,7 +381,7 @@ impl Space for C03 {
         Meta {
             id: "C03",
             level: "exploration",
-            rule: "(a) every ordered pair (u,t) of registry units/base units with equal dimensionality: `1 u -> t` must be a Conversion with raw*value(t)==value(u) exactly, and `x t -> u` must give 1; (b) every unit x one representative of every other dimensionality: Conformance error whose suggestions carry the reciprocal hint iff the product is dimensionless and otherwise name a factor that (parsed back through the quantity table) makes the sides conformable; (c) prefix x plural spellings of a unit core as targets, judged by an independent name resolver; (d) compound sources x 16 compound target shapes (constants, 1|3, ^2, ^-1, ^1, products, quotients, kilo-prefix, inline `foo = 3 t`, sign, zero-valued targets `0 t`, `(t - t)`: Conformance error when not conformable, some error when conformable; constants 1e-400 / 1e400, far outside the f64 range, in sources and targets; signed two-digit constants `-12 t`, `+12 t`, `-12*t`, `-05 t` where a time offset could also start) over a 12-unit core x rational values. (e) `1 t^p -> (prefix t)^p` for 12 units x every prefix x p in {2, 14, -14, 30} (values down to 1e-720). Non-trivial = judged (not skipped); distinct by query text".into(),
+            rule: "(a) every ordered pair (u,t) of registry units/base units with equal dimensionality: `1 u -> t` must be a Conversion with raw*value(t)==value(u) exactly, and `x t -> u` must give 1; (b) every unit x one representative of every other dimensionality: Conformance error whose suggestions carry the reciprocal hint iff the product is dimensionless and otherwise name a factor that (parsed back through the quantity table) makes the sides conformable; (c) prefix x plural spellings of a unit core as targets, judged by an independent name resolver; (d) compound sources x 16 compound target shapes (constants, 1|3, ^2, ^-1, ^1, products, quotients, kilo-prefix, inline `foo = 3 t`, sign, zero-valued targets `0 t`, `(t - t)`: Conformance error when not conformable, some error when conformable; constants 1e-400 / 1e400, far outside the f64 range, in sources and targets; signed two-digit constants `-12 t`, `+12 t`, `-12*t`, `-05 t` where a time offset could also start) over a 12-unit core x rational values. (e) `1 t^p -> (prefix t)^p` for 12 units x every prefix x p in {2, 14, -14, 30} (values down to 1e-720). Non-trivial = judged (not skipped); distinct by query text; (f) powers of three base units at the ends of i32/u32 - 11 spellings of u^(2^31-1), u^(2^31), u^(2^31+1), their negatives and u^(2^32), written directly and reached in two steps - as source and as target of `1 u^a -> u^b`: a number (1) only if a == b, a conformance error only if a != b, any other refusal accepted".into(),
             assumptions: vec![
                 "unit values come from the registry dump (C08 validates it)".into(),
                 "the single float-valued unit (semitone) is compared to 1e-12 relative".into(),
@@ -370,7 +395,7 @@ impl Space for C03 {
     }
     fn describe(&self, idx: u64) -> String {
         match self.plan(idx) {
-            Plan::Exact { q, .. } | Plan::Refuse { q, .. } | Plan::AnyErr { q } | Plan::OneOf { q, .. } => q,
+            Plan::Exact { q, .. } | Plan::Refuse { q, .. } | Plan::AnyErr { q } | Plan::OneOf { q, .. } | Plan::Edge { q, .. } => q,
             Plan::Skip(w) => format!("(skipped: {})", w),
         }
     }
@@ -444,6 +469,30 @@ impl Space for C03 {
                         }
                     },
                     Err(e) => out = out.viol("conformable conversion refused", format!("`{}`: {}", q, e)),
+                }
+                out
+            }
+            Plan::Edge { q, same } => {
+                let mut out = CaseOut::ok("edge power: refused as too large").key(hash64(&q));
+                match eval_q(ctx, &q) {
+                    Err(QueryError::Conformance(_)) => {
+                        out.outcome = "edge power: conformance error".into();
+                        if same {
+                            out = out.viol("conformable conversion refused", format!("`{}`: both sides are the same power of the same base unit, yet a conformance error", q));
+                        }
+                    }
+                    Err(_) => {}
+                    Ok(r) => {
+                        out.outcome = "edge power: converted".into();
+                        if !same {
+                            out = out.viol("conversion accepted across a dimension mismatch", format!("`{}` (different powers) returned {}", q, r));
+                        } else {
+                            match conv_raw(&Ok(r)).ok().and_then(|raw| numeric_to_rat(&raw.value)) {
+                                Some(v) if v == rat(1, 1) => {}
+                                other => out = out.viol("conversion between equal units is not 1", format!("`{}` returned {:?}", q, other.map(|x| x.to_string()))),
+                            }
+                        }
+                    }
                 }
                 out
             }
